@@ -188,3 +188,45 @@ Proof.
     cbn [filter fst]. rewrite H. exact IHl. }
   rewrite E. reflexivity.
 Qed.
+
+(** * the history of ONE location over a whole trace
+   Every event contributes, to the location it targets, a token saying what happened to the object
+   there, and to the location it reads from (the source of a copy or a move) a "read" token.
+   [lrun] is the two-state acceptor of the language  ( C (A | U | R)* D )*  : a constructor only on
+   dead storage, every other member function only on a constructed object; it returns whether the
+   location holds an object at the end.  [once_each l evs]: the history of l is in that language and
+   ends dead, i.e. every object ever constructed at l is destroyed exactly once, before the next
+   one is constructed there, and nothing touches l in between. *)
+Inductive ltok := LC | LA | LD | LU | LR.
+
+Definition src_tok (l : loc) (h : how) : list ltok :=
+  match src_of h with
+  | Some s => if loc_eqb s l then [LR] else []
+  | None => []
+  end.
+Definition ltoks_of (l : loc) (e : event) : list ltok :=
+  match e with
+  | Construct t h => src_tok l h ++ (if loc_eqb t l then [LC] else [])
+  | Assign t h => src_tok l h ++ (if loc_eqb t l then [LA] else [])
+  | Destroy t => if loc_eqb t l then [LD] else []
+  | Use t => if loc_eqb t l then [LU] else []
+  end.
+Definition lproj (l : loc) (evs : list event) : list ltok := flat_map (ltoks_of l) evs.
+
+Fixpoint lrun (alive : bool) (ts : list ltok) : option bool :=
+  match ts with
+  | [] => Some alive
+  | t :: r =>
+      match t with
+      | LC => if alive then None else lrun true r
+      | LD => if alive then lrun false r else None
+      | LA | LU | LR => if alive then lrun true r else None
+      end
+  end.
+
+Definition once_each (l : loc) (evs : list event) : Prop := lrun false (lproj l evs) = Some false.
+
+Definition is_LC (t : ltok) : bool := match t with LC => true | _ => false end.
+Definition is_LD (t : ltok) : bool := match t with LD => true | _ => false end.
+Definition constructions (l : loc) (evs : list event) : nat := length (filter is_LC (lproj l evs)).
+Definition destructions (l : loc) (evs : list event) : nat := length (filter is_LD (lproj l evs)).
